@@ -1,9 +1,162 @@
-"""C02 - the parser accepts exactly the well-formed messages (structural clauses)."""
+"""C02 - the parser accepts exactly the well-formed messages (structural clauses, DESIGN section 3 C02)."""
+import re
+from absint.lin import Lin
+from absint.values import *
+from mir import Origins, strip, const_int
 from rules import parser as P
+from rules import parse_e2 as PE
+from rules.c17 import shape, offsets
 
 LEVEL = "other"
+MSG = "stun_types::message::Message::<'a>::"
 
 
 def run(prog, chk, tier):
-    chk.explanation = "work in progress: ending-attribute automaton only"
+    chk.explanation = ("Structural necessary conditions of the accepted language, each decided for all inputs: (1) length agreement "
+                       "len(buffer) = declared length + 20 on every Ok return (E2); (2) header acceptance table; (3) ending-attribute "
+                       "automaton extracted from MIR over 8 seen-sets x 4 classes + CRC-mismatch rows (E3); (4) tiling: the walk advances by "
+                       "padded_len of the attribute just parsed, refuses an over-long attribute, returns Ok only on an empty remainder; "
+                       "(6) faithful exposure: getters read the offsets the header decoder validated, lookups are first-match over the "
+                       "iterator; (7) error fields: Truncated has expected > actual, TooLarge expected < actual. NOT decided: equality with "
+                       "an independent reference decoder on arbitrary bytes; CRC arithmetic.")
+    chk.trusted += ["external-callee model table", "spec tables transcribed from the property statement", "rustc MIR construction"]
     P.parser_automaton(prog, chk)
+    e2_clauses(prog, chk)
+    header_table(prog, chk)
+    tiling(prog, chk)
+    offsets(prog, chk, rule="faithful-exposure")
+    lookups(prog, chk)
+
+
+def e2_clauses(prog, chk):
+    a = PE.analyse(prog)
+    n_ok = 0
+    for st, ret, L, m in a["full"]:
+        c = PE.classify(prog, ret)
+        if c[0] == "Ok":
+            n_ok += 1
+            ok = m is not None and st.sys.entails_eq(L - m - 20)
+            chk.ob("length-agreement", "Message::from_bytes|Ok", ok,
+                   detail="an Ok return does not entail len(buffer) = declared length + 20" if not ok else None, how="E2 return state")
+            # the Message returned holds exactly the input slice
+            d = c[1].get(0) if isinstance(c[1], Struct) else None
+            ok = isinstance(d, Seq) and st.sys.entails_eq(d.len - L)
+            chk.ob("length-agreement", "Message.data is the whole input buffer", ok, how="E2 return state")
+        elif c[0] == "Err" and c[2] is not None and c[1] in ("Truncated", "TooLarge"):
+            e, av = c[2].get(0), c[2].get(1)
+            if isinstance(e, Num) and isinstance(av, Num):
+                if c[1] == "Truncated":
+                    ok = st.sys.entails_ge(e.e - av.e - 1)
+                    chk.ob("error-fields", "Truncated: expected > actual", ok, detail="%r" % (c[2],), how="E2 return state")
+                elif m is not None and st.sys.entails_eq(e.e - m - 20):
+                    ok = st.sys.entails_ge(av.e - e.e - 1) and st.sys.entails_eq(av.e - L)
+                    chk.ob("error-fields", "TooLarge{declared + 20, len}: expected < actual = len", ok, detail="%r" % (c[2],), how="E2 return state")
+        elif c[0] == "?":
+            chk.fail("length-agreement", "unclassified return state of Message::from_bytes", detail=repr(ret)[:200])
+    chk.floor("ok-return-states", n_ok, 1)
+    # excess bytes are refused: no Ok state is feasible with len > declared + 20 (implied by the equality), and the
+    # refusal is TooLarge
+    kinds = {PE.classify(prog, r)[1] for _, r, _, _ in a["full"] if PE.classify(prog, r)[0] == "Err"}
+    chk.ob("length-agreement", "a buffer longer than declared is refused as TooLarge", "TooLarge" in kinds, how="E2 return states")
+
+
+def header_table(prog, chk):
+    """MessageHeader::from_bytes returns Ok iff len >= 20, top two bits of the type word zero, cookie matches"""
+    a = PE.analyse(prog)
+    kinds = []
+    for st, ret, L in a["header"]:
+        c = PE.classify(prog, ret)
+        kinds.append(c[1] if c[0] == "Err" else c[0])
+    chk.ob("header-acceptance", "outcomes are Ok | NotStun | Truncated", set(kinds) <= {"Ok", "NotStun", "Truncated"} and "Ok" in kinds and "NotStun" in kinds,
+           detail=repr(kinds), how="E2 return states")
+    # constants: mask 0xC000 in MessageType::from_bytes, cookie comparison with MAGIC_COOKIE after >> 96
+    mb = prog.bodies[PE.HDR_FROM_BYTES.replace("MessageHeader", "MessageType")]
+    og = Origins(prog, mb)
+    masks = []
+    for bi, si, s in mb.iter_stmts():
+        if s["k"] == "assign" and s["rv"]["k"] == "binop" and s["rv"]["op"] == "BitAnd":
+            for side in ("a", "b"):
+                cv = const_int(og.operand(s["rv"][side]))
+                if cv is not None:
+                    masks.append(cv)
+    chk.ob("header-acceptance", "MessageType::from_bytes masks the type word with exactly 0xC000", masks == [0xC000], detail=repr([hex(m) for m in masks]), how="constant")
+    hb = prog.bodies[PE.HDR_FROM_BYTES]
+    hog = Origins(prog, hb)
+    cmp_ok = False
+    for bi, si, s in hb.iter_stmts():
+        if s["k"] == "assign" and s["rv"]["k"] == "binop" and s["rv"]["op"] in ("Ne", "Eq"):
+            sa, sb = shape(hog.operand(s["rv"]["a"])), shape(hog.operand(s["rv"]["b"]))
+            for x, y in ((sa, sb), (sb, sa)):
+                if y == ("const", 0x2112A442) and isinstance(x, tuple) and x[0] == "cast" and isinstance(x[1], tuple) and x[1][0] == "bin" and x[1][1] == "Shr" and x[1][3] == ("const", 96):
+                    cmp_ok = True
+    chk.ob("header-acceptance", "the cookie is the top 32 bits of the 128-bit word at offset 4, compared with 0x2112A442", cmp_ok, how="origin + constant")
+
+
+def tiling(prog, chk):
+    from rules.c01 import walker_facts, FROM_BYTES
+    from dtable import instrumented_body
+    f = walker_facts(prog, FROM_BYTES)
+    chk.ob("tiling", "the walk parses one RawAttribute per iteration and advances by its padded_len", f["raw_calls"] == 1 and f["advance_sites"] == 1 and f["advance_ok"] == 1,
+           detail=repr({k: v for k, v in f.items() if k != "base"}), how="origin")
+    chk.ob("tiling", "the walk starts at offset 20", f["starts"] == [20], detail=repr(f["starts"]), how="constant")
+    b, ups = instrumented_body(prog, FROM_BYTES)
+    og = Origins(prog, b)
+    heads = sorted({h for (_, h) in b.back_edges()})
+    ok = False
+    if len(heads) == 1:
+        # the loop is left only through the `is_empty` test of the remaining slice (other exits are error returns)
+        h = heads[0]
+        loop = b.natural_loop(h)
+        exits = [(bi, s) for bi in loop for s in b.succs(bi) if s not in loop]
+        okb = []
+        for bi, s in exits:
+            t = b.term(bi)
+            if t["k"] == "switch":
+                o = strip(og.operand(t["op"]))
+                if o.k == "call" and o.a[0].endswith("<impl [u8]>::is_empty"):
+                    okb.append((bi, s))
+        # every Ok aggregate of the function is reached only through such an exit
+        oks = [bi for bi, si, s in b.iter_stmts() if s["k"] == "assign" and s["rv"]["k"] == "aggregate" and s["rv"].get("adt") == "std::result::Result" and s["rv"].get("vname") == "Ok"
+               and b.ty(s["pl"]["ty"])["s"].startswith("std::result::Result<stun_types::message::Message")]
+        ok = bool(okb) and bool(oks) and all(any(b.dominates(s, ob) for _, s in okb) for ob in oks)
+    chk.ob("tiling", "Ok is returned only after the remainder became empty", ok, how="dominance")
+    # the over-long attribute is refused before the advance: E2 discharged the advance index in from_bytes (C01) -
+    # re-evaluated here from the same analysis
+    it = PE.analyse(prog)["full_interp"]
+    bad = [o for o in it.obligations.values() if o.body.startswith(FROM_BYTES) and o.kind == "index:start" and not o.ok]
+    n = sum(1 for o in it.obligations.values() if o.body.startswith(FROM_BYTES) and o.kind == "index:start")
+    chk.ob("tiling", "the advance `&data[padded_len..]` never over-runs (an over-long attribute is refused first)", n >= 1 and not bad, how="E2 obligation")
+
+
+def lookups(prog, chk):
+    """raw_attribute / attribute / has_attribute are first-match searches over iter_attributes()"""
+    from dtable import instrumented_body
+    for fn, adaptor in (("raw_attribute", "find"), ("attribute", "find"), ("has_attribute", "any")):
+        b, ups = instrumented_body(prog, MSG + fn)
+        og = Origins(prog, b)
+        found = False
+        others = []
+        for bi, t in b.calls():
+            name = og.callee_name(t)
+            m = re.match(r"^<(.*) as std::iter::Iterator>::(\w+)(::<.*>)?$", name)
+            if not m:
+                continue
+            recv = shape(og.operand(t["args"][0]))
+            if m.group(2) == adaptor and "MessageAttributesIter" in m.group(1) and not re.search(r"std::iter::(Rev|Skip|Take|StepBy)", m.group(1)):
+                src = repr(recv)
+                if "iter_attributes" in src:
+                    found = True
+            elif m.group(2) not in ("next",):
+                others.append(m.group(2))
+        chk.ob("faithful-exposure", "Message::%s is `%s` over iter_attributes() (first match, no reordering adaptor)" % (fn, adaptor), found and not others,
+               detail="other adaptors: %s" % others, how="callee identity")
+    # iter_attributes starts the shared walker at offset 20 over self.data
+    b = prog.bodies[MSG + "iter_attributes"]
+    og = Origins(prog, b)
+    import e1
+    sites = [s for s in e1.construct_sites(prog, "stun_types::message::MessageAttributesIter") if s["body"] == b.key]
+    ok = False
+    if len(sites) == 1:
+        ops = [shape(og.operand(o)) for o in sites[0]["stmt"]["rv"]["ops"]]
+        ok = ops[1] == ("const", 20) and isinstance(ops[0], tuple) and ops[0][0] == "field" and ops[0][2] == "data" and ops[2] == ("const", False)
+    chk.ob("faithful-exposure", "iter_attributes() starts at offset 20 of self.data with no integrity seen", ok, how="origin + constant")
